@@ -88,6 +88,9 @@ func eq(a, b reflect.Value, path string, opt Options, depth int) string {
 			}
 			if f.Type == posType {
 				if posIsSyntax[t.Name()+"."+f.Name] {
+					if t.Name() == "CallExpr" && f.Name == "NoParenEnd" && a.FieldByName("Args").Len() == 0 && b.FieldByName("Args").Len() == 0 {
+						continue // `g ()` and `g()`: a call without arguments has no paren-less spelling
+					}
 					av, bv := a.Field(i).Int() != 0, b.Field(i).Int() != 0
 					if av != bv {
 						return fmt.Sprintf("%s.%s: validity %v vs %v", path, f.Name, av, bv)
